@@ -3,9 +3,9 @@
    The models are those of the code with the repairs fixes/C18_*.diff applied; the [.._refuted]
    theorems record what the unrepaired code did (timestamps, decimal digit cap) and what is left
    as a known finding (booleans). *)
-From Coq Require Import List ZArith Bool Lia String Ascii.
+From Coq Require Import List ZArith Bool Lia String Ascii QArith Qabs.
 From SDC Require Import Scalars.Lex Scalars.Lex_Proofs Scalars.Timestamp Scalars.Timestamp_Proofs
-  Scalars.Decimal Scalars.Decimal_Proofs Scalars.Duration Scalars.Duration_Proofs
+  Scalars.Decimal Scalars.Decimal_Proofs Scalars.Decimal_Lex_Proofs Scalars.Duration Scalars.Duration_Proofs
   Scalars.DateTime Scalars.DateTime_Proofs.
 Import ListNotations.
 Open Scope Z_scope.
@@ -38,6 +38,18 @@ Theorem C18_ts_py_xml_py : forall a b, 0 <= a -> 0 < b -> a * 1000 <= 2 ^ 50 * b
 Proof. exact ts_py_xml_py. Qed.
 Print Assumptions C18_ts_py_xml_py.
 
+(* the same with rational values: |x' - x| < 1/1000 *)
+Theorem C18_ts_py_xml_py_Q : forall a b, 0 <= a -> 0 < b -> a * 1000 <= 2 ^ 50 * b ->
+  (Qabs (frQ (ts_to_py (ts_to_xml (a, b))) - frQ (a, b)) < 1 # 1000)%Q.
+Proof. exact ts_py_xml_py_Q. Qed.
+Print Assumptions C18_ts_py_xml_py_Q.
+
+(* wire level: the decimal string of n is parsed, converted to a float, converted back and printed unchanged *)
+Theorem C18_ts_wire_roundtrip : forall n, 0 <= n -> n * 1000 < 2 ^ 53 ->
+  option_map ts_to_xml_str (ts_to_py_str (str (print_Z n))) = Some (str (print_Z n)).
+Proof. exact ts_str_xml_py_xml. Qed.
+Print Assumptions C18_ts_wire_roundtrip.
+
 (* the code before the repair (int() truncation) loses the millisecond 1001 *)
 Theorem C18_ts_truncation_refuted :
   exists n, 0 <= n /\ n * 1000 < 2 ^ 53 /\ ts_to_xml_trunc (ts_to_py n) <> n.
@@ -56,6 +68,13 @@ Print Assumptions C18_decimal_value.
 Theorem C18_decimal_no_exponent : forall d, wf_dec d = true -> forallb plain_char (dec_to_xml_l d) = true.
 Proof. exact dec_no_exponent. Qed.
 Print Assumptions C18_decimal_no_exponent.
+
+(* XML -> Python: whatever to_py accepts lies in the lexical space of xsd:decimal
+   (white space, optional sign, digits with optional '.' and fraction digits) and is the Decimal with exactly
+   those digits: no 'E', 'NaN', 'Infinity', '_' or non-ASCII digit is accepted, no digit is dropped *)
+Theorem C18_decimal_rejects_non_lexical : forall s d, dec_parse s = Some d -> dec_lexical s d.
+Proof. exact dec_parse_lexical. Qed.
+Print Assumptions C18_decimal_rejects_non_lexical.
 
 (* the digit cap of the code before the repair (tail[:18 - len(head)]) loses 1E-18 *)
 Lemma dec_old_cap_refuted_lemma :
